@@ -10,6 +10,7 @@ import (
 	"sort"
 	"strconv"
 	"strings"
+	"sync"
 )
 
 const (
@@ -180,6 +181,7 @@ type Symtab struct {
 func NewSymtab() *Symtab { return &Symtab{decls: map[string]*Decl{}} }
 
 var gsym = NewSymtab()
+var gsymMu sync.Mutex
 
 func smtName(s string) string {
 	// |...| quoting for anything unusual
@@ -198,6 +200,8 @@ func smtName(s string) string {
 // App builds an application of an uninterpreted function (or constant).
 func App(name string, ret string, args ...*Term) *Term {
 	n := smtName(name)
+	gsymMu.Lock()
+	defer gsymMu.Unlock()
 	d, ok := gsym.decls[n]
 	as := make([]string, len(args))
 	for i, a := range args {
@@ -734,6 +738,8 @@ func declsFor(ts []*Term, extra map[string]bool) string {
 	}
 	sort.Strings(names)
 	var b strings.Builder
+	gsymMu.Lock()
+	defer gsymMu.Unlock()
 	for _, n := range names {
 		d := gsym.decls[n]
 		if d == nil {
@@ -742,4 +748,10 @@ func declsFor(ts []*Term, extra map[string]bool) string {
 		fmt.Fprintf(&b, "(declare-fun %s (%s) %s)\n", d.Name, strings.Join(d.Args, " "), d.Ret)
 	}
 	return b.String()
+}
+
+func lookupDecl(name string) *Decl {
+	gsymMu.Lock()
+	defer gsymMu.Unlock()
+	return gsym.decls[smtName(name)]
 }
